@@ -215,6 +215,8 @@ pub struct FaultState {
     pub fault: Fault,
     pub seen: u32,
     pub fired: bool,
+    /// Triggered, waiting for its delay to pass.
+    pub armed: bool,
 }
 
 pub struct Storm {
@@ -406,13 +408,14 @@ impl World {
         }
         for (k, f) in sc.faults.iter().enumerate() {
             if let Trigger::At(t) = f.trig {
-                let tt = w.us(t);
+                let tt = w.us(t + f.delay_us);
                 w.push(tt, 1, Ev::FaultAt(k));
             }
             w.faults.push(FaultState {
                 fault: f.clone(),
                 seen: 0,
                 fired: false,
+                armed: false,
             });
         }
         if w.adv.is_some() {
@@ -551,6 +554,8 @@ impl World {
             self.stats.inc("fault.stale_rx_at_online");
         }
         s.phy = Some(phy);
+        // a new poll process starts; any older one of this station ends
+        s.generation += 1;
         s.fdl.as_mut().unwrap().set_online();
         let first = !s.ever_online;
         s.ever_online = true;
@@ -717,7 +722,18 @@ impl World {
                 }
                 self.faults[k].fired = true;
                 let kind = self.faults[k].fault.kind.clone();
-                self.fire_fault(&kind, Some(idx));
+                let delay = self.faults[k].fault.delay_us;
+                let wire = matches!(
+                    kind,
+                    FaultKind::Drop | FaultKind::RxDrop { .. } | FaultKind::BitFlip { .. } | FaultKind::Subst { .. } | FaultKind::Truncate { .. } | FaultKind::Dup { .. } | FaultKind::Collide { .. }
+                );
+                if delay > 0 && !wire {
+                    self.faults[k].armed = true;
+                    let tt = self.now + self.us(delay);
+                    self.push(tt, 1, Ev::FaultAt(k));
+                } else {
+                    self.fire_fault(&kind, Some(idx));
+                }
             }
             // storms
             for s in 0..self.storms.len() {
@@ -1169,11 +1185,6 @@ impl World {
             }
         }
         self.stations[i].snap = post.clone();
-        if pre.online && !post.online && !self.stations[i].self_offline_seen {
-            self.stations[i].self_offline_seen = true;
-            self.stats.inc("probe.self_offline_address_collision");
-            self.notify_station(i, &StationEv::SelfOffline);
-        }
         if self.verbose {
             for r in &rx {
                 eprintln!("{:>12.3}us   st{} rx {:?}", t as f64 / self.cfg.baud as f64, i, r.verdict);
@@ -1207,6 +1218,11 @@ impl World {
             m.on_poll(self, &info);
         }
         self.monitors = mons;
+        if pre.online && !post.online && !self.stations[i].self_offline_seen {
+            self.stations[i].self_offline_seen = true;
+            self.stats.inc("probe.self_offline_address_collision");
+            self.notify_station(i, &StationEv::SelfOffline);
+        }
         self.cur_tx_app = calls.iter().rev().find_map(|c| match c {
             AppCall::Tx { app, sent: Some(_), .. } => Some(*app),
             _ => None,
@@ -1247,6 +1263,10 @@ impl World {
                     if self.stop {
                         break;
                     }
+                    // a fault triggered by this poll's transmission may have crashed the station
+                    if !self.stations[i].alive || self.stations[i].generation != gen || self.stations[i].phy.is_none() {
+                        continue;
+                    }
                     let dup_pm = self.stations[i].cfg.dup_poll_pm;
                     if dup_pm > 0 && self.stations[i].poll_rng.chance(u64::from(dup_pm), 1000) {
                         self.stats.inc("buggify.duplicate_poll");
@@ -1254,6 +1274,9 @@ impl World {
                         if self.stop {
                             break;
                         }
+                    }
+                    if !self.stations[i].alive || self.stations[i].generation != gen {
+                        continue;
                     }
                     let s = &mut self.stations[i];
                     let d = s.poll_rng.range(s.cfg.p_min_us.max(1), s.cfg.p_max_us.max(1));
@@ -1287,8 +1310,9 @@ impl World {
                 }
                 Ev::SlavePower(i, on) => self.set_slave_power(i, on),
                 Ev::FaultAt(k) => {
-                    if !self.faults[k].fired {
+                    if !self.faults[k].fired || self.faults[k].armed {
                         self.faults[k].fired = true;
+                        self.faults[k].armed = false;
                         let kind = self.faults[k].fault.kind.clone();
                         self.fire_fault(&kind, None);
                     }
@@ -1318,6 +1342,7 @@ impl World {
                 Ev::FaultsStop => {
                     for f in self.faults.iter_mut() {
                         f.fired = true;
+                        f.armed = false;
                     }
                     for s in self.slaves.iter_mut() {
                         s.byz.clear();
